@@ -379,7 +379,28 @@ def _annotated_cases_in_union_dump(ctx):
                     ctx.violation("dump-mismatch:Union:annotated-case", f"dump of {hint!r} value {x!r}: {out!r:.160}, documented {want!r} [{mode_name(dt, sc)}]", {"type": repr(hint), "x": repr(x)})
 
 
+def _abstract_collections_in_union_dump(ctx):
+    """'For objects of types that are not listed in the union, but which are a subclass of some union case, the base class dumper is used':
+    tuple / list / dict / frozenset are subclasses of the abstract collections by REGISTRATION, not by MRO - and they are what the union's own
+    loader returns for such a case (defect #103: KeyError on dumping load(x))."""
+    import typing as t  # noqa: PLC0415
+    from decimal import Decimal  # noqa: PLC0415
+
+    table = [(t.Union[t.Sequence[int], str], [1], (1,)), (t.Union[t.Mapping[str, Decimal], str], {"a": "1"}, {"a": "1"}), (t.Union[t.Iterable[Decimal], int], ["1"], ("1",)),
+             (t.Union[t.MutableSequence[int], str], [1], (1,)), (t.Union[t.AbstractSet[int], str], [1], (1,)), (t.List[t.Union[t.Sequence[Decimal], None, int]], [["1"], None, 2], [("1",), None, 2])]
+    for dt, sc in MODES:
+        r = make_retort(dt, sc)
+        for hint, datum, want in table:
+            x = attempt(r.load, datum, hint)
+            out = attempt(r.dump, x.value, hint) if x.kind == "ok" else x
+            ctx.evaluated(("abstract-union-case", repr(hint), dt.name, sc), nontrivial=True)
+            ctx.count("dumps")
+            if out.kind != "ok" or not _dump_eq(out.value, want):
+                ctx.violation("dump-mismatch:Union:virtual-subclass", f"{hint!r}: load({datum!r}) = {x!r:.80}, its dump {out!r:.120}, documented {want!r} [{mode_name(dt, sc)}]", {"type": repr(hint)})
+
+
 DIRECTED = {
+    "abstract-collections-in-union-dump": _abstract_collections_in_union_dump,
     "annotated-cases-in-union-dump": _annotated_cases_in_union_dump,
     "literal-lookalikes-in-union-dump": _literal_lookalikes_in_union_dump,
     "generic-alias-parameter-order": _generic_alias_parameter_order,
